@@ -171,7 +171,9 @@ class World:
         return Gene(None, name="GEN", yml=self.yaml_text(), genome=build)
 
     def yaml_file(self, directory):
-        path = os.path.join(directory, "gen.yml")
+        import hashlib
+        tag = hashlib.sha1(repr(self.spec).encode()).hexdigest()[:10]
+        path = os.path.join(directory, f"gen_{tag}.yml")
         if not os.path.exists(path):
             with open(path, "w") as f:
                 f.write(self.yaml_text())
